@@ -76,7 +76,7 @@ def main():
             jobs = int(a.pop(0))
         else:
             prefixes.append(x)
-    ids = sorted(os.listdir(os.path.join(VERIF, "seeded")))
+    ids = sorted(d for d in os.listdir(os.path.join(VERIF, "seeded")) if os.path.isdir(os.path.join(VERIF, "seeded", d)))
     if prefixes:
         ids = [i for i in ids if any(i.startswith(p) for p in prefixes)]
     with open(out, "w") as f, ThreadPoolExecutor(jobs) as ex:
